@@ -135,6 +135,11 @@ func runC13(c *Ctx) {
 						}
 					}
 				}
+				// end of stream (io.EOF) means CopyDone and nothing else: a connection that ends, or any other failure, in
+				// the middle of the COPY must not look like a clean end to the handler
+				if arm != 'c' && ev != nil {
+					R.Check(cls&core.CEOF == 0, "C13.R2", "(*CopyReader).Read:EOF-only-for-CopyDone:"+retDescr(ret), c.at(ret), "io.EOF is returned only for CopyDone; a stream that breaks off without CopyDone surfaces as an error", "error class "+cls.String(), "a return outside the CopyDone arm may carry io.EOF (class "+cls.String()+"): when the connection ends in the middle of a COPY the handler sees a clean end of stream and commits a truncated copy")
+				}
 				switch {
 				case arm == 'd':
 					seenArm['d'] = true
